@@ -197,7 +197,11 @@ def load(inf, lazy=False):
                     im = im.drop(dummy_channel.item(), illumination)
                 if '_image_scaling' in meta:
                     smin, smax = yaml.safe_load(meta['_image_scaling'])
-                    im = (im-im.min())*(smax-smin)/(im.max()-im.min())+smin
+                    if im.max() > im.min():
+                        im = (im-im.min())*(smax-smin)/(im.max()-im.min())+smin
+                    else:
+                        # constant image
+                        im = im-im.min()+smin
                 im.attrs = unpack_attrs(meta)
                 return im
         except KeyError or TypeError:
